@@ -143,10 +143,19 @@ theorem startInLoop_grow (c : C) : Grow c (startInLoop c) := by
     · exact connect_grow c
     · exact Grow.rfl' c
 
-theorem startCycle_grow (c : C) : Grow c (startCycle c) := by
-  unfold startCycle
+theorem cancelIf_grow (b : Bool) (c : C) : Grow c (cancelIf b c) := by
+  unfold cancelIf cancelRetry
+  split
+  · grow_frame
+  · exact Grow.rfl' c
+
+theorem startCycleCore_grow (c : C) : Grow c (startCycleCore c) := by
+  unfold startCycleCore
   refine Grow.trans ?_ (startInLoop_grow _)
   grow_frame
+
+theorem startCycle_grow (c : C) : Grow c (startCycle c) :=
+  Grow.trans (cancelIf_grow cycleStartCancelsRetryTimer c) (startCycleCore_grow _)
 
 theorem restart_grow (c : C) : Grow c (restart c) := by
   unfold restart
@@ -154,7 +163,10 @@ theorem restart_grow (c : C) : Grow c (restart c) := by
   grow_frame
 
 theorem stopInLoop_grow (c : C) : Grow c (stopInLoop c) := by
-  unfold stopInLoop die
+  refine Grow.trans (cancelIf_grow (decide (stopCancelsRetryTimer c.cConnect)) c) ?_
+  show Grow _ (stopInLoopCore _)
+  generalize cancelIf (decide (stopCancelsRetryTimer c.cConnect)) c = c
+  unfold stopInLoopCore die
   split
   · split
     · split
